@@ -1,19 +1,20 @@
 #!/bin/bash
-# usage: tools/trymut.sh <patch.diff> [-R] <Cxx> [tier]   -- apply a seeded change to /repo, run one check, undo.
-P="$1"; shift
+# usage: tools/trymut.sh <patch.diff> [-R] <Cxx> [tier]
+# Applies a seeded change (or reverse-applies a commit's patch with -R) to a SCRATCH worktree of /repo HEAD and runs one
+# check against it (LUNARMON_REPO / LUNARMON_OUT): /repo's working tree and /verif/evidence are never touched.
+P="$(readlink -f "$1")"; shift
 REV=""
 if [ "$1" = "-R" ]; then REV="-R"; shift; fi
 ID="$1"; TIER="${2:-quick}"
-cd /repo || exit 9
-if [ -n "$(git status --porcelain)" ]; then echo "repo dirty"; exit 9; fi
-git apply $REV "$P" || { echo "patch does not apply"; exit 9; }
+WT=/tmp/trymut-wt-$$
+git -C /repo worktree add -q --detach $WT HEAD || exit 9
+cleanup() { git -C /repo worktree remove --force $WT 2>/dev/null; rm -rf /tmp/trymut-out-$$ /tmp/trymut.$$.log; }
+trap cleanup EXIT
+git -C $WT apply $REV "$P" || { echo "patch does not apply"; exit 9; }
 cd /verif
-LUNARMON_OUT=/tmp/trymut-out ./check "$ID" "$TIER" > /tmp/trymut.$$.log 2>&1
+LUNARMON_REPO=$WT LUNARMON_OUT=/tmp/trymut-out-$$ ./check "$ID" "$TIER" > /tmp/trymut.$$.log 2>&1
 rc=$?
-git -C /repo checkout -- .
-git -C /repo clean -fdq
 grep -E "^(VIOLATION|HELD|INCONCLUSIVE|KNOWN)" /tmp/trymut.$$.log | head -5
 grep -E "^  violation" /tmp/trymut.$$.log | head -4 | cut -c1-400
 echo "rc=$rc $(grep -E 'evaluations=' /tmp/trymut.$$.log | head -1)"
-rm -f /tmp/trymut.$$.log
 exit $rc
